@@ -1,11 +1,12 @@
 """C12 - every random draw satisfies all constraints its sampling set declares."""
 import contextlib
+import math
 
 import numpy as np
 import z3
 
 from symx import Harness, pname, sand, sor, simplies, siff, near_le, near_eq, snot, sif, smax, smin, is_sym, SymReal, SymInt, Abort, lift
-from symx.core import SymComplex
+from symx.core import SymComplex, uf
 from symx.stubs import shadow, SymRandom, NpRandomProxy, sym_isinstance
 
 PROPERTY = 'C12'
@@ -150,6 +151,41 @@ def h_complex_sector(E):
     n2 = z.real * z.real + z.imag * z.imag
     lo, hi = smin(m0, m1), smax(m0, m1)
     E.check('sector-modulus-in-range', sand(near_le(lo * lo, n2), near_le(n2, hi * hi)))
+    return 'ok'
+
+
+ARG_RANGES = [(0.5, 2.0), (2.0, 0.5), (3 * math.pi / 4, 5 * math.pi / 4), (math.pi / 2, 3 * math.pi / 2), (-5.0, -3.0), (2.5, 4.0), (6.0, 7.0), (-math.pi, math.pi),
+              (3.0, 3.5), (-3.5, -3.0), (10.0, 10.5)]
+
+
+def h_complex_sector_angle(E, idx):
+    """the ANGLE of a ComplexSector draw, for argument ranges anywhere on the real line (also straddling +-pi, beyond 2 pi, reversed, degenerate):
+    z = m (cos t + i sin t) with m in the modulus range and t = lo + (hi - lo) u for a draw u in [0, 1] - decided on the polar form with cos / sin as
+    uninterpreted functions of the very argument term; the concrete replay checks the angle of the complex number modulo 2 pi"""
+    from mitxgraders import ComplexSector
+    a0, a1 = ARG_RANGES[idx]
+    m0, m1 = E.real('mod0', 0.5, 6), E.real('mod1', 0.5, 6)
+    with rng(E) as (r, ch):
+        s = ComplexSector(modulus=[m0, m1], argument=[a0, a1])
+        z = s.gen_sample()
+    lo, hi = min(a0, a1), max(a0, a1)
+    if E.mode == 'conc':
+        ang = float(np.angle(z))
+        off = (ang - lo) % (2 * math.pi)
+        E.check('sector-angle-in-range', off <= (hi - lo) + 1e-9 or off >= 2 * math.pi - 1e-9)
+        E.check('sector-modulus-in-range', near_le(min(m0, m1), abs(z)) and near_le(abs(z), max(m0, m1)))
+        return 'ok'
+    draws = [SymReal(z3.Real('rng%d' % k)) for k in range(1, r.n + 1)]
+    mlo, mhi = smin(m0, m1), smax(m0, m1)
+    cands = []
+    for um in draws:
+        for ua in draws:
+            if um is ua:
+                continue
+            m = mlo + (mhi - mlo) * um
+            t = lift(lo) + lift(hi - lo) * ua.e
+            cands.append(sand(z.real == m * SymReal(uf('cos', 1)(t)), z.imag == m * SymReal(uf('sin', 1)(t))))
+    E.check('sector-angle-in-range', sor(*cands))
     return 'ok'
 
 
@@ -540,6 +576,9 @@ def harnesses(tier):
     add(h_square_rules, 'square_rules', {}, '6 symmetries x traceless x determinant None/0/1 x dimension 2..5 x complex', validate=False)
     add(h_complex_rect, 'complex_rect', {}, 'ends any reals in [-6,6]')
     add(h_complex_sector, 'complex_sector', {}, 'modulus ends in [0,6], argument ends in [-3,3]')
+    for i in range(len(ARG_RANGES)):
+        add(h_complex_sector_angle, 'complex_sector_angle', dict(i=i, lo=round(ARG_RANGES[i][0], 3), hi=round(ARG_RANGES[i][1], 3)), 'symbolic modulus range and draws; concrete argument range')
+        hs[-1].params = (i,)
     for n in (1, 2, 4):
         add(h_discrete, 'discrete', dict(n=n), 'symbolic members plus one array member')
         add(h_specific_functions, 'specific_functions', dict(n=n), 'function list')
